@@ -70,13 +70,20 @@ def build(spec):
     exp = []
     for idx, (nm, a) in enumerate(zip(names, amps)):
         h = FRAMES[nm]
-        buf += P.modulate(h, a, ng)
+        mod_ = P.modulate(h, a, ng)
+        for b_, (fx, fy) in (spec.get("distort") or {}).get(str(idx), {}).items():
+            # a distorted bit: its two half-microsecond samples carry the given fractions of the frame's pulse amplitude
+            mod_[16 + 2 * int(b_)] = a * fx
+            mod_[16 + 2 * int(b_) + 1] = a * fy
+        buf += mod_
         L = P.frame_samples(h)
         if idx < len(names) - 1:
             g = {"L": L, "L+1": L + 1, "3L": 3 * L}[spec["gap"]]
             buf += [next(ng) for _ in range(g)]
         if nm in ACCEPT:
             exp.append(h.upper())
+    if spec.get("distort"):
+        exp = None          # outside the premise of the 'returns exactly' clause: only the never-a-bad-DF17 clause is judged
     tail = spec.get("tail", 480)
     if tail < 480 and spec["gap"] == "3L" and len(names) >= 2:
         pass        # the long gap between the frames already holds a noise-only aligned 100 us window: keep offset and tail exact
@@ -173,6 +180,8 @@ def judge_history(specs):
         # frames of formats the property does not list (DF18, DF16, DF0) are distractors: whether the reader reports them is
         # not constrained (a reader that admits valid DF18 squitters still has the property), so they are removed from
         # the answer before it is compared; a DF17 with a bad checksum is never acceptable (checked above)
+        if exp is None:
+            continue
         free = {FRAMES[n].upper() for n in spec["frames"] if n in ("DF18", "DF16", "DF0")}
         if free:
             got = [g for g in got if g not in free]
@@ -307,6 +316,25 @@ def gen(ctx):
                     b2 = {"frames": [bad, "DF17a"], "offset": 9, "amps": [a, a], "db": db, "shape": SHAPES[k % 3], "gap": "3L", "nseed": ctx.seed + 4}
                     hs.append([b1, b2])
                     hs.append([b1, b1, b2])
+    # distorted pulses (fading, interference): one or two bits of a good squitter whose two samples carry every pair of
+    # fractions of the pulse amplitude from an alphabet around the reader's own thresholds - whatever the reader makes of
+    # such a frame (drops it, repairs it), it must never hand over a DF17 whose checksum is non-zero
+    FR = [0.0, 0.2, 0.31, 0.33, 0.4, 0.49, 0.51, 0.6, 0.79, 1.0, 1.3]
+    POS = [5, 8, 9, 31, 32, 40, 63, 87, 88, 100, 110, 111]
+    for nm in ("DF17a", "DF17alt"):
+        for b_ in POS:
+            for fx in FR:
+                for fy in FR:
+                    for a, db in ((0.5, None), (1.4, -13), (1.0, -40)):
+                        k += 1
+                        hs.append([{"frames": [nm], "offset": 5 + k % 7, "amps": [a], "db": db, "shape": SHAPES[k % 3], "gap": "L",
+                                    "nseed": ctx.seed + 5, "distort": {"0": {str(b_): [fx, fy]}}}])
+        for b_, c_ in itertools.combinations(POS, 2):
+            for fx in FR[2:9]:
+                for fy in FR[2:9]:
+                    k += 1
+                    hs.append([{"frames": [nm], "offset": 5 + k % 7, "amps": [[0.5, 1.4][k % 2]], "db": [None, -13][k // 2 % 2], "shape": SHAPES[k % 3],
+                                "gap": "L", "nseed": ctx.seed + 5, "distort": {"0": {str(b_): [fx, fy], str(c_): [fy, fx]}}}])
     # three (thorough: also four) buffers through one reader over a reduced alphabet: anything that looks at more than
     # the previous buffer (a window of recent noise estimates, a counter) needs at least three calls to show
     seg3 = [s_ for s_ in seg if s_["frames"][0] in ("DF17a", "DF4") and s_["db"] in (None, -10)]
